@@ -122,6 +122,12 @@ func (r *Reader) readRecord() (*record, error) {
 	// Read payload
 	data := make([]byte, length)
 	if _, err := io.ReadFull(r.reader, data); err != nil {
+		// ReadFull reports a plain io.EOF when not a single payload byte
+		// follows the header. The record is cut short all the same: this is
+		// not a clean end of the log
+		if err == io.EOF {
+			err = io.ErrUnexpectedEOF
+		}
 		return nil, err
 	}
 
